@@ -253,6 +253,18 @@ func runC05(c *core.Case) {
 	if !chk("CheckExtendedSpatialIdsOverlap", g, e, want, sa, sb) {
 		return
 	}
+	if r.P(0.03) { // the same voxels spelled with non-canonical numerals the parser accepts
+		ra, rb := respell(r, sa), respell(r, sb)
+		g, e = detector.CheckExtendedSpatialIdsOverlap(ra, rb)
+		if !chk("CheckExtendedSpatialIdsOverlap", g, e, want, ra, rb) {
+			return
+		}
+		ga, ea := detector.CheckExtendedSpatialIdsArrayOverlap([]string{ra, sa}, []string{sb})
+		if !chk("CheckExtendedSpatialIdsArrayOverlap", ga, ea, want, ra, sa, sb) {
+			return
+		}
+		c.Tag("respelled-numerals")
+	}
 	g, e = detector.CheckExtendedSpatialIdsOverlap(sb, sa)
 	if !chk("CheckExtendedSpatialIdsOverlap", g, e, want, sb, sa) {
 		return
